@@ -463,14 +463,8 @@ theorem rt : ∀ (S : Ty) (cx : Cx) (fx : Fx) (v : V), cx.plain → Frag S → L
       · rw [pack]; simp [hes, hsk]
       · rw [unpack]
         simp only [fromDict, filter_init_all O fs hlf]
-        cases fs with
-        | nil =>
-          cases ivs with
-          | nil => simp [defaultsOnly, buildInst]
-          | cons _ _ => simp [ConfF] at hall
-        | cons p fs' =>
-          simp only [List.isEmpty_cons, hfe, Bool.false_and, hback _ hlook, R.bind_ok, R.pure_eq, buildInst]
-          simp
+        simp only [hfe, Bool.false_and, hback _ hlook, R.bind_ok, R.pure_eq, buildInst]
+        simp
 
 /-- fixed tuples: element i of the packed list is the packed element i, and back -/
 theorem rtIdx : ∀ (ts : List Ty) (cx : Cx) (fx : Fx) (vs : List V), cx.plain → FragL ts → LosslessL O ts → ConfL ts vs →
